@@ -22,7 +22,8 @@ ASSUMPTIONS = [
 
 CATS = ("f", "g", "h", "C(k)")
 NUMS = ("x", "z")
-GROUP_FACTORS = ("g", "h", "C(k)", (":", ("var", "g"), ("var", "h")), (":", ("var", "h"), ("var", "f")))
+GROUP_FACTORS = ("g", "h", "C(k)", (":", ("var", "g"), ("var", "h")), (":", ("var", "h"), ("var", "f")),
+                 ("+", ("var", "g"), ("var", "h")), ("/", ("var", "g"), ("var", "C(k)")), ("+", ("var", "h"), ("var", "C(k)")))
 
 
 @st.composite
